@@ -57,6 +57,23 @@ fn probes() -> Vec<(&'static str, Case)> {
             Stmt::Begin, Stmt::Savepoint("a".into()), Stmt::Insert(vec![vec![v(1), v(1)]]), Stmt::Insert(vec![vec![v(1), v(1)]]),
             Stmt::RollbackTo("a".into()), Stmt::Commit,
         ] }),
+        // repaired defects 59f86921 / c6ce8972: keys that collide only after normalization
+        ("multi-row-insert-duplicate-after-truncation", Case { schema: Schema { kinds: vec![Kind::Plain, Kind::Varchar3, Kind::Char(4)], int_col: vec![true, false, false], pk: true, uniques: vec![] }, stmts: vec![
+            Stmt::CreateIndex("u1".into(), vec![1], true),
+            Stmt::CreateIndex("u2".into(), vec![2, 1], true),
+            Stmt::Insert(vec![vec![v(4), Val::Str("abc".into()), Val::Str("y".into())], vec![v(5), Val::Str("abcd".into()), Val::Str("y".into())]]),
+            Stmt::Insert(vec![vec![v(6), Val::Str("xyz".into()), Val::Str("y".into())]]),
+            Stmt::Insert(vec![vec![v(7), Val::Str("q".into()), Val::Str("y".into())]]),
+            Stmt::Update(vec![(1, SetE::Const(Val::Str("xyzw".into())))], Pred::Cmp(0, "=", v(7))),
+            Stmt::Upsert(vec![v(7), Val::Str("q".into()), Val::Str("y".into())], 1, Val::Str("xyzw".into())),
+        ] }),
+        ("upsert-date-key-normalised", Case { schema: Schema { kinds: vec![Kind::Plain, Kind::Plain, Kind::Date], int_col: vec![true, true, false], pk: true, uniques: vec![] }, stmts: vec![
+            Stmt::CreateIndex("u2".into(), vec![2], true),
+            Stmt::Insert(vec![vec![v(10), v(4), Val::Str("2024-01-05".into())]]),
+            Stmt::Insert(vec![vec![v(11), v(4), Val::Str("2024-02-29".into())]]),
+            Stmt::Upsert(vec![v(11), v(5), Val::Str("2024-1-5".into())], 2, Val::Str("2024-1-5".into())),
+            Stmt::Update(vec![(2, SetE::Const(Val::Str("2024-1-5".into())))], Pred::Cmp(0, "=", v(11))),
+        ] }),
         ("create-drop-index", Case { schema: s2.clone(), stmts: base(vec![Stmt::CreateIndex("z".into(), vec![1, 0], false), Stmt::DropIndex("qv".into()), Stmt::Delete(Pred::Cmp(1, "=", v(2))), Stmt::CreateIndex("qv".into(), vec![0], false)]) }),
     ]
 }
